@@ -439,6 +439,32 @@ PrintStep(ev) ==
          IF key = 0 THEN "address" ELSE IF key \in {78, 83, 87, 69, 100, 68} THEN "float.key" ELSE "key")
   /\ Mark("C15", Len(ev.rows) > 1, ev)
 
+
+(***************************** C18 TCP feed ********************************)
+\* ev: [faults, conns : seq of [kind, t_accept, t_prev_end, refused_before, lines, partial, t_end], noaccept, alive, last]
+TcpStep(ev) ==
+  LET nc == Len(ev.conns)
+      allLines == [k \in 1..nc |-> ev.conns[k].lines \o (IF ev.conns[k].partial = <<>> THEN <<>> ELSE <<ev.conns[k].partial>>)]
+      addrsOf(k) == {LineInfo(allLines[k][j]).a : j \in {x \in 1..Len(allLines[k]) :
+                        LET li == LineInfo(allLines[k][x]) IN li.isf /\ li.a # 0 /\ li.df \in NineDF}}
+      expected == UNION {addrsOf(k) : k \in 1..nc}
+      shown == IF ev.last = <<>> THEN {} ELSE {RowAddr(ev.last[1].rows[j]) : j \in 1..Len(ev.last[1].rows)}
+      healthy == nc > 0 /\ ev.conns[nc].kind = "healthy"
+  IN
+  /\ Chk("C18", "reconnects", ~ev.noaccept /\ healthy /\ nc = Cardinality({j \in 1..Len(ev.faults) : ev.faults[j] # "refuse"}) + 1, ev, "gave.up")
+  /\ Chk("C18", "alive", ev.alive, ev, "exited")
+  /\ \A k \in 1..nc :
+       LET c == ev.conns[k]  gap == c.t_accept - c.t_prev_end IN
+       IF c.refused_before > 0
+       THEN Chk("C18", "pause", gap >= 5000 * c.refused_before - 500 /\ gap <= 5000 * c.refused_before + 2000, [i |-> ev.i],
+                IF gap < 5000 * c.refused_before - 500 THEN "too.early" ELSE "too.late")
+       ELSE Chk("C18", "prompt", k = 1 \/ gap <= 2500, [i |-> ev.i], "slow.reconnect")
+  /\ Chk("C18", "table.kept", (healthy /\ ~ev.noaccept) => expected \subseteq shown, ev, "lost.aircraft")
+  /\ Chk("C18", "partial.line", (healthy /\ ~ev.noaccept) => shown \subseteq expected, ev, "phantom.aircraft")
+  /\ Chk("C13", "tcp.junk", (healthy /\ ~ev.noaccept) => expected \subseteq shown, ev, "junk")
+  /\ Mark("C18", Len(ev.faults) > 0, ev)
+  /\ Mark("C13", \E k \in 1..nc : ev.conns[k].kind = "junk", ev)
+
 (***************************** events **************************************)
 RunStep(ev) ==
   LET s    == ev.slot
@@ -507,6 +533,7 @@ Step(ev) ==
   ELSE IF ev.e = "tick" THEN TickStep(ev)
   ELSE IF ev.e = "save" THEN SaveStep(ev)
   ELSE IF ev.e = "restore" THEN RestoreStep(ev)
+  ELSE IF ev.e = "tcp" THEN (IF TcpStep(ev) THEN st ELSE st)
   ELSE IF ev.e = "print" THEN (IF PrintStep(ev) THEN st ELSE st)
   ELSE IF ev.e = "country" THEN (IF CountryStep(ev) THEN st ELSE st)
   ELSE IF ev.e = "cli" THEN (IF CliStep(ev) THEN st ELSE st)
